@@ -27,8 +27,10 @@ import (
 	"sync"
 	"time"
 
+	"github.com/coredhcp/coredhcp/config"
 	"github.com/coredhcp/coredhcp/handler"
 	"github.com/coredhcp/coredhcp/plugins"
+	"github.com/coredhcp/coredhcp/server"
 	pl_autoconfigure "github.com/coredhcp/coredhcp/plugins/autoconfigure"
 	pl_dns "github.com/coredhcp/coredhcp/plugins/dns"
 	pl_file "github.com/coredhcp/coredhcp/plugins/file"
@@ -803,6 +805,64 @@ func runSidChainOne(t *Trace, other string, proto int, args []string, seed int64
 	}
 }
 
+// one configuration through the LOADER, in this process: plugins.LoadPlugins on a configuration that lists the
+// plugin under the given protocol (whether it supports it or not), then datagrams through HandleMsg4/6
+func runLoadOne(t *Trace, pl string, proto int, args []string, seed int64) {
+	registerBuiltin()
+	installGoroutineHooks()
+	sc := &config.ServerConfig{Plugins: []config.PluginConfig{{Name: pl, Args: args}}}
+	conf := &config.Config{}
+	if proto == 4 {
+		conf.Server4 = sc
+	} else {
+		conf.Server6 = sc
+	}
+	var (
+		h4  []handler.Handler4
+		h6  []handler.Handler6
+		err error
+	)
+	pan, _ := callWatch(func() { h4, h6, err = plugins.LoadPlugins(conf) })
+	res := "ok"
+	switch {
+	case pan != nil:
+		res = "panic"
+	case err != nil:
+		res = "err"
+	}
+	nilh := false
+	for _, h := range h4 {
+		nilh = nilh || h == nil
+	}
+	for _, h := range h6 {
+		nilh = nilh || h == nil
+	}
+	t.Emit(Ev{"ev": "load1", "pl": pl, "proto": proto, "args": args, "res": res, "nilhandler": nilh, "msg": fmt.Sprint(err)})
+	if res != "ok" {
+		return
+	}
+	l4 := server.NewVerifListener4(h4, net.Interface{Index: boundIndex()})
+	l6 := server.NewVerifListener6(h6, net.Interface{})
+	r := rand.New(rand.NewSource(seed))
+	own := &dhcpv6.DUIDLL{HWType: 1, LinkLayerAddr: net.HardwareAddr{0, 0xde, 0xad, 0xbe, 0xef, 0}}
+	for i := 0; i < 8; i++ {
+		var b []byte
+		var kind string
+		peer := &net.UDPAddr{IP: net.IPv4(10, 0, 0, 9), Port: 68}
+		if proto == 4 {
+			b, kind = wellFormed4(r)
+		} else {
+			b, kind = wellFormed6(r, own)
+			peer = &net.UDPAddr{IP: net.ParseIP("fe80::99"), Port: 546}
+		}
+		fr := feed(l4, l6, proto, b, 7, peer)
+		t.Emit(Ev{"ev": "lh", "pl": pl, "proto": proto, "kind": kind, "res": fr.res, "n": fr.n, "msg": fr.msg})
+		if fr.res == "wedged" || fr.res == "slow" {
+			return
+		}
+	}
+}
+
 // accepted configurations for the decision tables (C14 C17)
 func tableConfigs() []struct {
 	pl    string
@@ -877,6 +937,14 @@ func runPlugins(args []string) error {
 		return err
 	}
 	defer t.Close()
+	if *mode == "loadone" {
+		var a []string
+		if err := json.Unmarshal([]byte(*jargs), &a); err != nil {
+			return err
+		}
+		runLoadOne(t, *plug, *proto, a, *seed)
+		return nil
+	}
 	if *mode == "sidone" {
 		var a []string
 		if err := json.Unmarshal([]byte(*jargs), &a); err != nil {
@@ -974,6 +1042,25 @@ func runPlugins(args []string) error {
 				}
 			}
 		}
+		// through the loader: every plugin under BOTH protocols (LoadPlugins skips what a plugin does not support),
+		// argument vectors of arity 0..1 plus the table's accepted ones
+		for _, n := range names {
+			for _, pr := range []int{4, 6} {
+				for _, v := range vecs {
+					if len(v) <= 1 {
+						if n == "sleep" && len(v) == 1 {
+							if d, err := time.ParseDuration(v[0]); err == nil && d > 50*time.Millisecond {
+								v = []string{"3ms"} // a configured long delay is honoured faithfully; keep the run short
+							}
+						}
+						jobs = append(jobs, job{n, pr, v, "loadone"})
+					}
+				}
+			}
+		}
+		for _, c := range tableConfigs() {
+			jobs = append(jobs, job{c.pl, c.proto, c.args, "loadone"}, job{c.pl, 10 - c.proto, c.args, "loadone"})
+		}
 		for _, n := range names {
 			for _, pr := range []int{4, 6} {
 				if (pr == 4 && builtin[n].Setup4 == nil) || (pr == 6 && builtin[n].Setup6 == nil) {
@@ -1005,6 +1092,8 @@ func runPlugins(args []string) error {
 			childMode := "one"
 			if j.reqs == "sidchain" {
 				childMode = "sidone"
+			} else if j.reqs == "loadone" {
+				childMode = "loadone"
 			}
 			cmd := exec.Command(self, "plugins", "-mode", childMode, "-plugin", j.pl, "-proto", strconv.Itoa(j.proto), "-args", string(ja),
 				"-reqs", j.reqs, "-seed", strconv.FormatInt(*seed*100003+int64(i), 10), "-out", tmp)
